@@ -54,3 +54,26 @@ def b2n (b : Bool) : Nat := if b then 1 else 0
 
 end Py
 end J1939
+
+namespace J1939
+
+/-- CPython `dict` with integer keys: insertion ordered; overwrite keeps the position, insert appends,
+    delete keeps the order of the rest; `list(d)` is the list of keys. -/
+abbrev PyDict (α : Type) := List (Nat × α)
+
+namespace PyDict
+variable {α : Type}
+
+def get? (d : PyDict α) (k : Nat) : Option α := (d.find? (·.1 == k)).map (·.2)
+def contains (d : PyDict α) (k : Nat) : Bool := d.any (·.1 == k)
+def keys (d : PyDict α) : List Nat := d.map (·.1)
+def erase (d : PyDict α) (k : Nat) : PyDict α := d.filter (·.1 != k)
+/-- `d[k] = v` (keys are unique: the first entry with the key is the only one) -/
+def set : PyDict α → Nat → α → PyDict α
+  | [], k, v => [(k, v)]
+  | p :: d, k, v => if p.1 == k then (k, v) :: d else p :: set d k v
+/-- update the value at `k` if present -/
+def modify (d : PyDict α) (k : Nat) (f : α → α) : PyDict α := d.map (fun p => if p.1 == k then (p.1, f p.2) else p)
+
+end PyDict
+end J1939
